@@ -10,7 +10,10 @@ from harness.xbuild import uS
 
 ID = "C09"
 REQUIRED_THEOREMS = ["comparison_roundtrip", "condition_roundtrip", "linear_adjustment_roundtrip", "mapM_roundtrip",
-                     "term_roundtrip", "polynomial_roundtrip", "mapM_all", "splinepoint_roundtrip", "spline_roundtrip"]
+                     "term_roundtrip", "polynomial_roundtrip", "mapM_all", "splinepoint_roundtrip", "spline_roundtrip",
+                     "discrete_lookup_roundtrip", "contextmatch_roundtrip", "context_calibrator_roundtrip",
+                     "default_calibrator_roundtrip", "context_list_roundtrip", "int_encoding_roundtrip",
+                     "float_encoding_roundtrip", "binary_encoding_roundtrip"]
 RULE = ("requests `cyclexml <prefix> <nsmap> <root> <tree>` (definitions loaded from independently written XML, with units, "
         "descriptions incl. empty ones, time types, every optional attribute at non-default values) and `cycleobj <ldef>` "
         "(definitions assembled from objects): write, load, write, load, write on both sides; the by-name serialisation of "
@@ -27,11 +30,11 @@ def is_trivial(line, mo):
     return mo.startswith("err") or mo.startswith("unsupported")
 
 
-def time_decorate(rng, xml):
+def time_decorate(rng, xml, ns=None):
     """Turn some uncalibrated integer types of a generated document into time types (XML level)."""
     import lxml.etree as ET
     root = ET.fromstring(xml)
-    ns = xmlgen.XTCE_NS
+    ns = ns or xmlgen.XTCE_NS
     for el in list(root.iter(f"{{{ns}}}IntegerParameterType")):
         enc = el.find(f"{{{ns}}}IntegerDataEncoding")
         if enc is None or len(enc) or rng.random() > 0.25:
@@ -56,10 +59,17 @@ def time_decorate(rng, xml):
     return ET.tostring(root, xml_declaration=True, encoding="utf-8")
 
 
+# slopes and intercepts of length adjustments: the defaults of either side (0, 1, 8) and arbitrary values
+ADJ_POOL = [("8", "0"), ("1", "0"), ("1", "-3"), ("1", "-8"), ("8", "-16"), ("-8", "16"), ("2", "5"), ("0", "24"), ("0", "0"),
+            ("8", "-328")]
+URIS = [xmlgen.XTCE_NS, xmlgen.XTCE_NS, "http://www.omg.org/space/xtce", "urn:example:xtce-like"]
+
+
 def gen_docs(rng, tier):
-    ndefs = 14 if tier == "quick" else 120
+    ndefs = 14 if tier == "quick" else 500
     for _ in range(ndefs):
-        d = defgen.Defn(rng, apid_name=rng.choice(["PKT_APID", "APID"]), max_depth=rng.choice([1, 2, 3]), fanout=3)
+        d = defgen.Defn(rng, apid_name=rng.choice(["PKT_APID", "APID"]), max_depth=rng.choice([1, 2, 3]), fanout=3,
+                        adj_pool=ADJ_POOL, rich=True)
         yield d
 
 
@@ -68,11 +78,12 @@ def generate(rng, tier):
     for d in gen_docs(rng, tier):
         dsx = d.sexpr()
         # (a) loaded from XML written by the independent writer
-        sp = xmlgen.Spelling("prefix", "xtce")
-        xml = time_decorate(rng, xmlgen.document(rng, dsx, sp, decorate=True))
+        uri = rng.choice(URIS)
+        sp = xmlgen.Spelling("prefix", "xtce", uri=uri)
+        xml = time_decorate(rng, xmlgen.document(rng, dsx, sp, decorate=True), uri)
         root = ET.fromstring(xml)
         if rng.random() < 0.4:
-            rcs = root.findall(f".//{{{xmlgen.XTCE_NS}}}RestrictionCriteria")
+            rcs = root.findall(f".//{{{uri}}}RestrictionCriteria")
             if rcs:
                 rc = rng.choice(rcs); rc.getparent().remove(rc)
         t = xmlutil.tree_sx(root)
@@ -84,6 +95,8 @@ def generate(rng, tier):
                 obj = xbuild.definition(dsx)
                 obj.date = xmlops.FIXED_DATE
                 obj.space_system_name = rng.choice([None, "SYS"])
+                u = rng.choice(URIS)
+                obj.ns, obj.xtce_schema_uri = {"xtce": u}, u
             yield f"cycleobj {sx(xser.ldef(obj))}", "from-objects"
         except Exception:  # noqa: BLE001
             continue
